@@ -464,3 +464,33 @@ def e8_pool_not_capped(ctx, rep):
                       "pool capped at %d threads (reducer + %d effect workers)" % (eff, eff - 1),
                       "pool capped at %d thread(s): the reducer holds one for the store's lifetime, so at most %d effect worker(s) remain and one slow effect delays every later effect and Effect::Action" % (eff, max(eff - 1, 0)))
     rep.floor(R, "pool construction sites", n, 1)
+
+
+def rp1_reducer_thread_never_unwraps_a_shutdown_slot(ctx, rep):
+    """stop() empties the pool slot and close() the sender slot while the reducer thread may
+    still be working off its backlog: code that thread runs (including the Dispatcher methods it
+    calls through `dyn`) must treat an empty slot as "nothing to do", never `unwrap()` it - a
+    panic there ends the thread between reduce and notify and every queued action is lost"""
+    R = "RP1"
+    A = ctx.A
+    from rules.deadlock import _ra
+    ra = _ra(ctx)
+    reach = ctx.sync_reach([A.reducer_closure[0]], virtual=ra.targets)
+    rep.floor(R, "bodies the reducer thread may run", len(reach), 8)
+    n = 0
+    for b in reach.values():
+        bp = ctx.prog.bp(b)
+        for s in ctx.prog.sites(b):
+            if s.ck not in ("std::option::Option::unwrap", "std::option::Option::expect", "std::option::Option::unwrap_unchecked"):
+                continue
+            t = bp.arg_term(s.bb, 0)
+            flds = {st[2] for st in subterms(t) if st[0] == "field"}
+            hit = flds & {A.f_pool, A.f_tx}
+            if hit:
+                n += 1
+                rep.note_fn(b.path)
+                role = "pool-slot" if A.f_pool in hit else "sender-slot"
+                rep.bad(R, "slot-unwrapped-on-reducer-thread:%s:%s" % (role, short(b.path)), s.where,
+                        "%s unwraps the `%s` slot on a path the reducer thread runs: after stop()/close() emptied it the thread panics and the backlog is neither notified nor reduced" % (short(b.path), sorted(hit)[0]))
+    if not n:
+        rep.ok(R, "no-slot-unwrapped-on-reducer-thread", "", "none of the %d bodies the reducer thread may run unwraps the pool slot or the sender slot" % len(reach))
